@@ -83,7 +83,7 @@ var specs = map[string]*propSpec{
 			{"pkg/httpclient Handler behind the http.* builtins (per-call timeout / redirect options)", "real-woven", "L0 + race probes; (*http.Client).Do redirected"},
 			{"upstream HTTP servers, http.Client transport", "stub", "simulated upstream: a pure function of the request with simulated latency (5 ms - 40 s); the client's Timeout and redirect policy are honoured as net/http honours them"},
 		},
-		FaultKinds: []string{"clock-jump", "slow-upstream"},
+		FaultKinds: []string{"clock-jump", "slow-upstream", "client-gone-at-write"},
 	},
 	"C19": {
 		ID: "C19", Title: "a failed reload never takes the dev server down",
